@@ -124,8 +124,8 @@ def check_operator(hi, n, stats, add, where):
         stats["nj.ill_conditioned"] += 1
         return
     # "exactly the diagonal": a few hundred ulps of the largest magnitude met while building the dense
-    # matrix (SciPy's own matvec and todense already differ in the last bits)
-    tol = 1e-12 * big
+    # matrix (SciPy's own matvec and todense already differ in the last bits; the two-loop recursion itself loses about pairs x eps x that magnitude)
+    tol = 1e-10 * big
     err = float(np.max(np.abs(d - np.diag(h64))))
     if not err <= tol:
         add("diag_differs_from_dense_operator", {"where": where, "max_abs_err": err, "tolerance": tol, "pairs": int(sk.shape[0]), "n": n})
